@@ -1,0 +1,12 @@
+//go:build verif
+
+package nitro
+
+// Scheduling hook for deterministic replays of interleavings (compiled only with -tags verif).
+var VerifYieldFn func(point string)
+
+func verifYield(point string) {
+	if f := VerifYieldFn; f != nil {
+		f(point)
+	}
+}
